@@ -70,7 +70,11 @@ class Tok:
         return cls._cache[ident]
 
     def __eq__(self, other):
-        return isinstance(other, Tok) and self.eqclass == other.eqclass
+        if not isinstance(other, Tok):
+            # hostile towards foreign operands: the library has no business comparing a target with
+            # anything by == (sentinels and breadcrumbs are identity tests)
+            raise TypeError('a target was compared with a %s by ==' % type(other).__name__)
+        return self.eqclass == other.eqclass
 
     def __ne__(self, other):
         return not self == other
@@ -278,7 +282,7 @@ class BVal:
 
 
 def abstract_val(v):
-    if v is INV or v == INV:
+    if v is INV or (isinstance(v, tuple) and v == INV):
         return ['inv']
     if v is None:
         return ['n']
